@@ -920,8 +920,15 @@ func rpcGetEntryAndProof(ctx context.Context, li *logInfo, req *trillian.GetEntr
 	if err != nil {
 		return nil, li.toHTTPStatus(err), fmt.Errorf("backend GetEntryAndProof request failed: %s", err)
 	}
-	if err := li.issuanceChainService.FixLogLeaf(ctx, rsp.Leaf); err != nil {
-		return nil, http.StatusInternalServerError, fmt.Errorf("failed to fix log leaf: %v", rsp)
+	if rsp == nil {
+		return nil, http.StatusInternalServerError, errors.New("missing GetEntryAndProof response")
+	}
+	// The backend leaves the leaf out when it cannot serve the request (e.g. the
+	// index is beyond its tree); the caller maps that to the right status.
+	if rsp.Leaf != nil {
+		if err := li.issuanceChainService.FixLogLeaf(ctx, rsp.Leaf); err != nil {
+			return nil, http.StatusInternalServerError, fmt.Errorf("failed to fix log leaf: %v", rsp)
+		}
 	}
 
 	return rsp, http.StatusOK, nil
